@@ -309,6 +309,96 @@ pub fn gen_context(d: &Data, r: &mut Rng) -> String {
     }
 }
 
+/// A rule assembled from random components of the whole DSL (captures, alphas, structures,
+/// sets, optionals, ellipsis, prosody matrices, boundaries, exceptions).  Many of these are
+/// rejected by the parser or fail when applied -- for C01 that is as good as success: the
+/// outcome, whatever it is, must be the same everywhere.
+pub fn gen_combo_rule(d: &Data, r: &mut Rng) -> String {
+    let greek = ["A", "B", "C", "α", "β"];
+    let feats = ["voice", "cont", "nas", "hi", "back", "round", "long", "stress", "son", "lat"];
+    let mut ncap = 0usize;
+    let mut alphas_used: Vec<&str> = Vec::new();
+    let mut item = |r: &mut Rng, ncap: &mut usize, alphas_used: &mut Vec<&str>, allow_capture: bool| -> String {
+        let base = match r.below(9) {
+            0 | 1 => r.pick(&GROUPS).to_string(),
+            2 => gen_segment(d, r),
+            3 => {
+                let a = *r.pick(&greek[..]);
+                alphas_used.push(a);
+                format!("[{}{}]", a, r.pick(&feats[..]))
+            }
+            4 => {
+                let a = *r.pick(&greek[..]);
+                alphas_used.push(a);
+                format!("{}:[{}{}, {}{}]", r.pick(&GROUPS), a, r.pick(&feats[..]), if r.chance(1, 2) { "+" } else { "-" }, r.pick(&feats[..]))
+            }
+            5 => "%".to_string(),
+            6 => format!("%:[{}stress]", if r.chance(1, 2) { "+" } else { "-" }),
+            7 => format!("{{{}, {}}}", r.pick(&GROUPS), gen_segment(d, r)),
+            _ => format!("<{} {}>", r.pick(&GROUPS), r.pick(&GROUPS)),
+        };
+        if allow_capture && r.chance(1, 3) {
+            *ncap += 1;
+            format!("{base}={}", *ncap)
+        } else {
+            base
+        }
+    };
+    let nin = r.range(1, 3);
+    let mut input: Vec<String> = Vec::new();
+    for _ in 0..nin {
+        input.push(item(r, &mut ncap, &mut alphas_used, true));
+    }
+    if r.chance(1, 8) {
+        input.insert(r.below(input.len() + 1), "...".to_string());
+    }
+    // output: captures, alphas, structures, metathesis, deletion
+    let mut output: Vec<String> = Vec::new();
+    match r.below(8) {
+        0 => output.push("*".into()),
+        1 => output.push("&".into()),
+        _ => {
+            let nout = r.range(1, 3);
+            for _ in 0..nout {
+                let o = match r.below(6) {
+                    0 if ncap > 0 => format!("{}", r.range(1, ncap)),
+                    1 if ncap > 0 => format!("{}:[{}{}]", r.range(1, ncap), if r.chance(1, 2) { "+" } else { "-" }, r.pick(&feats[..])),
+                    2 if ncap > 1 => format!("<{} {}>", r.range(1, ncap), r.range(1, ncap)),
+                    3 if !alphas_used.is_empty() => format!("[{}{}]", r.pick(&alphas_used[..]), r.pick(&feats[..])),
+                    4 => gen_matrix(r),
+                    _ => gen_segment(d, r),
+                };
+                output.push(o);
+            }
+        }
+    }
+    let mut rule = format!("{} > {}", input.join(" "), output.join(" "));
+    if r.chance(2, 3) {
+        let side = |r: &mut Rng, ncap: &mut usize, alphas_used: &mut Vec<&str>| -> String {
+            let n = r.below(3);
+            let mut v: Vec<String> = Vec::new();
+            for _ in 0..n {
+                let it = match r.below(6) {
+                    0 if *ncap > 0 => format!("{}", r.range(1, *ncap)),
+                    1 => format!("({})", r.pick(&GROUPS)),
+                    2 => "#".to_string(),
+                    3 => "$".to_string(),
+                    _ => item(r, ncap, alphas_used, true),
+                };
+                v.push(it);
+            }
+            v.join(" ")
+        };
+        let before = side(r, &mut ncap, &mut alphas_used);
+        let after = side(r, &mut ncap, &mut alphas_used);
+        rule.push_str(&format!(" / {before} _ {after}"));
+        if r.chance(1, 5) {
+            rule.push_str(&format!(" | _ {}", gen_segment(d, r)));
+        }
+    }
+    rule
+}
+
 /// One rule line over the documented DSL.  Shapes known to hang or to overflow on the
 /// pinned tree (C02's territory) are not produced: no `$ > $`-style unconditioned
 /// boundary rewriting, no numeric literals beyond three digits.
@@ -326,6 +416,9 @@ pub fn gen_rule(d: &Data, r: &mut Rng) -> String {
         let seg = r.pick(&d.simple_cardinals).clone();
         let dia = *r.pick(&d.diacritics);
         return format!("{seg}{dia} > {}", r.pick(&d.simple_cardinals));
+    }
+    if r.chance(1, 10) {
+        return gen_combo_rule(d, r);
     }
     if !d.doc_rules.is_empty() && r.chance(1, 8) {
         return r.pick(&d.doc_rules).clone();
